@@ -356,7 +356,9 @@ def run(rep, tier):
         plans = [('N2-full', 2, 2, FULL, 1), ('N3-reduced', 3, 2, REDUCED, 1), ('N2-nested3', 2, 1, NESTED, 0, 3, NEST_INNER)]
     else:
         # (three types over the mid alphabet and four types over the reduced one do not finish: feasibility queries time out)
-        plans = [('N2-full', 2, 2, FULL, 1), ('N2-full-2prior', 2, 2, FULL, 2), ('N3-reduced', 3, 2, REDUCED, 1), ('N3-reduced-2prior', 3, 2, REDUCED, 2),
+        # (N3-reduced with two prior calls is decidable but sits at the edge of the 60 s feasibility-query budget when other checks run
+        #  beside it -- a tier that is sometimes inconclusive on the unchanged tree is worse than a smaller one, so it is left out)
+        plans = [('N2-full', 2, 2, FULL, 1), ('N2-full-2prior', 2, 2, FULL, 2), ('N3-reduced', 3, 2, REDUCED, 1),
                  ('N2-nested3', 2, 1, NESTED, 0, 3, NEST_INNER), ('N2-nested3-1prior', 2, 1, NESTED, 1, 3, NEST_INNER)]
     rep.bounds['graphs'] = {p[0]: dict(types=p[1], members=p[2], kinds=[KIND_NAMES[k] for k in p[3][0]], safety=[SAF_NAMES[s] for s in p[3][1]],
                                        member_types=list(p[3][2]), prior_calls=p[4], expression_depth=(p[5] if len(p) > 5 else 1)) for p in plans}
